@@ -113,9 +113,19 @@ Proof.
   apply Nat.ltb_lt. eapply Nat.lt_le_trans; [apply Nat.lt_0_1|]. eapply Nat.le_trans; [exact Ha | apply Nat.le_add_r].
 Qed.
 
+(* consecutive reconnects (any number, any path, any transfer / republish outcomes): when every recreate succeeds the
+   subscription keeps its whole item table - every TimestampsToReturn group - and each recreating reconnect asks the
+   server for all of its items *)
+Theorem C26_partial_items_survive_consecutive_reconnects :
+  forall k p e groups, se_create_ok e = true -> se_items_ok e = true ->
+    snd (rounds_items k p e groups) = groups /\
+    forall r, In r (fst (rounds_items k p e groups)) -> r = total_items groups \/ r = 0.
+Proof. exact rounds_keep_items. Qed.
+
 Print Assumptions C26_refuted_republish_never_acked.
 Print Assumptions C26_partial_publish_notifications_acked.
 Print Assumptions C26_refuted_failed_recreate_ignored.
 Print Assumptions C26_partial_subscriptions_survive.
 Print Assumptions C26_refuted_session_kept_not_resumed.
 Print Assumptions C26_partial_resumed_after_session_loss.
+Print Assumptions C26_partial_items_survive_consecutive_reconnects.
